@@ -386,6 +386,8 @@ def main(argv=None):
     if maxima:
         print("  max error/tolerance: " + ", ".join(f"{k}={v:.3g}" for k, v in sorted(maxima.items())))
     if new_v:
+        for r in inconclusive[:3]:
+            print("  (also inconclusive) " + r[:500].replace("\n", "\n    "))
         return 1
     if inconclusive:
         for r in inconclusive[:5]:
